@@ -5,7 +5,7 @@
 use proptest::collection::vec;
 use proptest::prelude::*;
 use serde::{Deserialize, Serialize};
-use srtla_core::connection::{LinkPhase, SrtlaConnection};
+use srtla_core::connection::SrtlaConnection;
 use srtla_core::{ConfigSnapshot, SchedulingMode};
 
 use crate::engine::core::{T0, apply_inbound, apply_keepalive_echo, apply_reg3, new_link};
@@ -147,6 +147,8 @@ pub struct World {
     pub prev_select_at: Option<u64>,
     pub step: usize,
     pub next_id: usize,
+    /// the harness's own record, per link: a REG3 was delivered since the link's last reset
+    pub registered: Vec<bool>,
 }
 
 impl World {
@@ -183,6 +185,7 @@ impl World {
             prev_select_at: None,
             step: 0,
             next_id: case.n_links as usize,
+            registered: (0..case.n_links as usize).map(|i| case.init.get(i).copied().unwrap_or(2) != 0).collect(),
         }
     }
 
@@ -266,9 +269,16 @@ impl World {
             SelOp::LossDeg(l, b) => self.links[idx(*l, n)].loss_degraded = *b,
             SelOp::CcTarget(l, s) => self.links[idx(*l, n)].cc_target_bps = TARGETS[*s as usize % TARGETS.len()],
             SelOp::Bitrate(l, s) => self.links[idx(*l, n)].bitrate.current_bitrate_bps = BITRATES[*s as usize % BITRATES.len()] as f64,
-            SelOp::Reg3(l) => apply_reg3(&mut self.links[idx(*l, n)], now),
-            SelOp::MarkRecovery(l) => self.links[idx(*l, n)].mark_for_recovery(),
+            SelOp::Reg3(l) => {
+                apply_reg3(&mut self.links[idx(*l, n)], now);
+                self.registered[idx(*l, n)] = true;
+            }
+            SelOp::MarkRecovery(l) => {
+                self.links[idx(*l, n)].mark_for_recovery();
+                self.registered[idx(*l, n)] = false;
+            }
             SelOp::Reconnect(l) => {
+                self.registered[idx(*l, n)] = false;
                 let c = &mut self.links[idx(*l, n)];
                 c.reset_for_reconnect(now);
                 c.mark_reconnect_success();
@@ -277,12 +287,14 @@ impl World {
             SelOp::RemoveLink(l) => {
                 if n > 1 {
                     self.links.remove(idx(*l, n));
+                    self.registered.remove(idx(*l, n));
                     self.last_sel = None;
                 }
             }
             SelOp::AddLink => {
                 if n < 5 {
                     self.links.push(new_link(self.next_id, now));
+                    self.registered.push(false);
                     self.next_id += 1;
                 }
             }
@@ -307,7 +319,8 @@ impl World {
     /// Independent usability predicate (C03): registered, connected, heard within the timeout.
     pub fn usable(&self, i: usize) -> bool {
         let c = &self.links[i];
-        let registered = !matches!(c.phase, LinkPhase::Registering);
+        // "registered" is the harness's own fact (a REG3 was delivered since the last reset), not the code's phase
+        let registered = self.registered.get(i).copied().unwrap_or(false);
         let silent = match c.last_received {
             Some(lr) => self.now.saturating_sub(lr) >= self.cfg.conn_timeout_ms,
             None => true,
